@@ -314,6 +314,7 @@ func runIL(c Case) (res *vkit.Result) {
 		clients = append(clients, &cl)
 	}
 	c.Rotate, c.Roll, c.UseMode, c.Earlier, c.Other, c.OldKeys = nil, nil, "", nil, nil, nil
+	c.Fault = nil
 	hook := &claimHook{}
 	st, sut, err := buildProvider(c, clients, hook)
 	if err != nil {
